@@ -126,6 +126,12 @@ func (r *RibEntry) updateNexthopsEnc() {
 func (r *RibEntry) updateOwnNexthopsEnc() {
 	FibStrategyTable.ClearNextHopsEnc(r.Name)
 
+	// An entry without routes of its own has no FIB entry: names below it
+	// match the next shorter prefix that has routes
+	if len(r.routes) == 0 {
+		return
+	}
+
 	// All routes including parents if needed
 	routes := append([]*Route{}, r.routes...)
 
